@@ -1001,3 +1001,56 @@ def loop_source_subslice(f, head):
         if re.search(r"::(split_at|split_at_mut|split_first|split_last|split_off|drain)$", ck):
             return ck
     return None
+
+
+def loop_body(f, head_bb):
+    """Blocks of the (outermost) loop through block head_bb: reachable from it and reaching it."""
+    fwd = P.reachable_blocks(f, [(head_bb, 0)])
+    body = set()
+    for b in fwd:
+        if head_bb in P.reachable_blocks(f, [(s_, 0) for _l, s_ in f.blocks[b].succs]) or b == head_bb:
+            body.add(b)
+    if head_bb not in P.reachable_blocks(f, [(s_, 0) for _l, s_ in f.blocks[head_bb].succs]):
+        return set()
+    return body
+
+
+def loop_exits(f, head_bb):
+    """[(block, label, successor)] edges that leave the loop through head_bb."""
+    body = loop_body(f, head_bb)
+    return [(b, lab, s_) for b in sorted(body) for lab, s_ in f.blocks[b].succs if s_ not in body and not f.blocks[s_].cleanup]
+
+
+def value_tests(fn, subject):
+    """Tests of a value against constants, whatever the source form: `x == C` / `x != C` (a comparison feeding a switch) and
+    `match x { C1 => .., C2 => .., _ => .. }` (a switch on the value itself).  `subject(fn, operand)` says whether an operand reads the
+    value in question.  Returns [{pt, value, named, eq_edges}] -- eq_edges are the (block, label) edges taken when x equals the constant."""
+    out = []
+    for b in fn.blocks:
+        for i, st in enumerate(b.st):
+            if st["s"] != "=":
+                continue
+            rv = st["rv"]
+            if rv.get("r") == "bin" and rv["op"] in ("Eq", "Ne"):
+                for x, y in ((rv["a"], rv["b"]), (rv["b"], rv["a"])):
+                    if subject(fn, x):
+                        for c in P.origin_consts(fn, y):
+                            if c.get("v") is None:
+                                continue
+                            eq = set()
+                            for sb in P.switch_blocks(fn):
+                                for s_ in cond_sources(fn, sb.idx):
+                                    if s_["k"] == "bin" and s_["pt"] == (b.idx, i):
+                                        eq.add((sb.idx, "sw:1" if rv["op"] == "Eq" else "sw:0"))
+                            out.append({"pt": (b.idx, i), "value": c["v"], "named": c.get("named"), "eq_edges": eq, "form": "compare"})
+    for sb in P.switch_blocks(fn):
+        d = sb.term["discr"]
+        if d.get("k") not in ("copy", "move") or not subject(fn, d):
+            continue
+        if not d["pl"]["p"]:
+            ds = P.defs(fn).of(d["pl"]["l"])
+            if any(kind != "assign" or p_["rv"].get("r") not in ("use", "cast") for (_pt, kind, p_) in ds):
+                continue        # a switch on the outcome of a comparison / call / enum discriminant, not on the value itself
+        for v, _t in sb.term["arms"]:
+            out.append({"pt": P.term_pt(fn, sb.idx), "value": v, "named": None, "eq_edges": {(sb.idx, "sw:%d" % v)}, "form": "switch"})
+    return out
